@@ -108,3 +108,11 @@ Print Assumptions print_fixed_point.
 Theorem print_stmt_roundtrip : forall mw e, wf e -> lexok e -> parse_stmt_text (print_expr mw false true e) = Some (norm e).
 Proof. exact print_stmt_roundtrip_all. Qed.
 Print Assumptions print_stmt_roundtrip.
+
+(* the head of a for loop has the same restriction.  js_printer prints a for-loop initialiser with
+   stmtStart off (known finding C13-D10, proposed fix fixes/C13-let-bracket-for-head.diff), so for the code
+   as it is the statement is refuted (Examples.v: for_head_let_refuted); with the guard on it holds: *)
+Theorem print_for_head_roundtrip_if_guarded : forall mw e, wf e -> lexok e ->
+  parse_for_head_text (print_expr mw true true e) = Some (norm e).
+Proof. exact print_for_head_roundtrip_guarded. Qed.
+Print Assumptions print_for_head_roundtrip_if_guarded.
